@@ -12,13 +12,14 @@ import (
 func init() { Registry["C16"] = checkC16 }
 
 func checkC16(p *core.Prog, r *core.Report) {
-	r.Explanation = "Decides structural necessary conditions of state-preserving compaction: (R1) the replacement snapshot is published (rewrite.aof.tmp renamed into place) before any compaction input is removed, and during a compaction files are removed only in its commit step; (R2) compactions are serialised by a test-and-set of isRewriting under the Aof mutex, cleared again on every exit (deferred function); (R3) an append file becomes a compaction input only if its index is strictly behind the current append file's (wrap-aware); (R4) the compaction callback drops a record only when its database is gone or LockDB.HasLock says the hold no longer exists - every other record is appended, with its value blob iff it announces one; (R5) the commit step runs only after the load returned no error, and the temporary file is flushed and closed before that. NOT decided: equality of the recovered state before/after, appends racing a compaction, every intermediate directory image."
+	r.Explanation = "Decides structural necessary conditions of state-preserving compaction: (R1) the replacement snapshot is published (rewrite.aof.tmp renamed into place) before any compaction input is removed, and during a compaction files are removed only in its commit step; (R2) compactions are serialised by a test-and-set of isRewriting under the Aof mutex, cleared again on every exit (deferred function); (R3) an append file becomes a compaction input only if its index is strictly behind the current append file's (wrap-aware); (R4) the compaction callback drops a record only when its database is gone or LockDB.HasLock says the hold no longer exists - every other record is appended, with its value blob iff it announces one; (R5) the commit step runs only after the load returned no error, and the temporary file is flushed and closed before that; (R6) replay quiescence - the condition the start-up compaction waits for - is decided (flush waiters released, WaitFlushAofChannel returning without waiting) only on paths that read the replay channels' queue counters, because a channel that was handed records but has not woken up yet is not in the active count (a real defect found by this rule's subject was repaired). NOT decided: equality of the recovered state before/after, appends racing a compaction, every intermediate directory image."
 	r.Assumptions = []string{"Go type checker, go/ssa and VTA call graph are correct for /repo", "os.Rename replaces its target atomically"}
 	c16R1(p, r)
 	c16R2(p, r)
 	c16R3(p, r)
 	c16R4(p, r)
 	c16R5(p, r)
+	c16R6(p, r)
 }
 
 // reachesRemove: does fn (transitively, by static calls in the module) call os.Remove / os.RemoveAll?
@@ -351,5 +352,106 @@ func c16R5(p *core.Prog, r *core.Report) {
 			},
 		})
 		ex.Run(fn, nil)
+	}
+}
+
+// c16R6: the start-up compaction (and every other caller of
+// WaitFlushAofChannel) relies on "the replay channels are quiescent" meaning
+// that every record handed to a channel has been applied. A channel that was
+// handed records but has not woken up yet is not counted in
+// channelActiveCount, so quiescence cannot be decided from that counter alone:
+// every decision - releasing the flush waiters (close of channelFlushWaiter)
+// and WaitFlushAofChannel returning without waiting - must also have looked at
+// the channels' queue counters on its path. Otherwise the compaction runs
+// against half-replayed tables and drops the records of live holds.
+func c16R6(p *core.Prog, r *core.Report) {
+	const rule = "C16/R6"
+	r.Rule(rule, "replay quiescence (release of the flush waiters, WaitFlushAofChannel's no-wait return) is decided only on paths that read the channels' queue counters", 2)
+	qk := fk("server.AofChannel", "queueCount")
+	readsQueue := func(fn *ssa.Function) bool {
+		for _, b := range fn.Blocks {
+			for _, ins := range b.Instrs {
+				if u, ok := ins.(*ssa.UnOp); ok {
+					if fa, ok := u.X.(*ssa.FieldAddr); ok && core.FieldKeyOf(fa.X.Type(), fa.Field) == qk {
+						return true
+					}
+				}
+			}
+		}
+		return false
+	}
+	for _, fn := range p.FuncsIn("server") {
+		if fn.Blocks == nil || recvName(fn) != "Aof" {
+			continue
+		}
+		closes, isWait := false, fn.Name() == "WaitFlushAofChannel"
+		for _, b := range fn.Blocks {
+			for _, ins := range b.Instrs {
+				if c, ok := ins.(*ssa.Call); ok {
+					if bi, ok := c.Common().Value.(*ssa.Builtin); ok && bi.Name() == "close" {
+						x := &core.X{Fr: &core.Frame{Fn: fn}, St: core.NewState()}
+						if strings.HasSuffix(core.Plain(x.Canon(c.Common().Args[0]).S), ".channelFlushWaiter") {
+							closes = true
+						}
+					}
+				}
+			}
+		}
+		if !closes && !isWait {
+			continue
+		}
+		name := core.FuncName(fn)
+		ex := core.NewExplorer(p, core.Hooks{
+			Inline: func(x *core.X, c *ssa.Function) bool {
+				return core.InModule(c) && recvName(c) == "Aof" && readsQueue(c)
+			},
+			Branch: func(x *core.X, a core.Atom) {
+				// the loop over the channels was entered (possibly with no channel at all)
+				if s := core.Plain(a.String()); strings.Contains(s, "len(") && strings.Contains(s, ".channels)") {
+					x.Set("readq", "1")
+				}
+			},
+			Instr: func(x *core.X) {
+				switch t := x.Ins.(type) {
+				case *ssa.UnOp:
+					if fa, ok := t.X.(*ssa.FieldAddr); ok && core.FieldKeyOf(fa.X.Type(), fa.Field) == qk {
+						x.Set("readq", "1")
+					}
+					if t.Op.String() == "<-" && x.Top() {
+						x.Set("waited", "1")
+					}
+				case *ssa.Call:
+					if !x.Top() {
+						return
+					}
+					if bi, ok := t.Common().Value.(*ssa.Builtin); ok && bi.Name() == "close" {
+						if strings.HasSuffix(core.Plain(x.Canon(t.Common().Args[0]).S), ".channelFlushWaiter") {
+							key := name + ": release of the flush waiters"
+							if x.Get("readq") == "1" {
+								r.Hold(rule, key, x.Pos(), "queue counters read before the release")
+							} else {
+								r.Violate(rule, key, x.Pos(), "the flush waiters are released on the active-channel counter alone: a channel that was handed records but has not woken up yet is not counted, so callers (start-up compaction) proceed against half-replayed tables and drop live holds", x.St.Trace)
+							}
+						}
+					}
+				}
+			},
+			Exit: func(x *core.X, rets []core.Expr) {
+				if !isWait || x.Get("waited") == "1" {
+					return
+				}
+				key := name + ": return without waiting"
+				if x.Get("readq") == "1" {
+					r.Hold(rule, key, x.Pos(), "queue counters read before deciding not to wait")
+				} else {
+					r.Violate(rule, key, x.Pos(), "WaitFlushAofChannel returns without waiting and without having read the channels' queue counters", x.St.Trace)
+				}
+			},
+		})
+		ex.NoHist = true
+		ex.Run(fn, nil)
+		if ex.Imprecise != "" {
+			r.Fail("C16/R6 %s: %s", name, ex.Imprecise)
+		}
 	}
 }
